@@ -94,6 +94,13 @@ def case_strategy(draw, ctx):
     }
     if has_bloch:
         spec["bloch_phase"] = [draw(st.sampled_from([0.0, 0.7, 1.9, -2.4])) for _ in range(3)]
+    # half of the scenes also contain a box positioned the *other* documented way: centre-relative
+    # partial_real_position + partial_real_shape (no constraint) - its placement depends on where each grid
+    # description puts the domain centre
+    if draw(st.booleans()):
+        size = [2 * draw(st.integers(1, max(1, shape[a] // 2 - 1))) for a in range(3)]
+        off = [draw(st.integers(-(shape[a] - size[a]) // 2, (shape[a] - size[a]) // 2)) for a in range(3)]
+        spec["rp_box"] = {"size": size, "offset": off, "eps": draw(st.sampled_from([1.7, 3.0]))}
     variants = [draw(st.sampled_from(["quasi", "quasi", "realvol"])), draw(st.sampled_from(["rect0", "rectc"]))]
     return {"scene": spec, "variants": variants}
 
@@ -126,6 +133,12 @@ def _build(spec, lane, variant):
     ref = dict(spec)
     ref["grid"] = {"kind": "uniform"}
     objs, cons, vol = scenes.build_objects(s, lane, scenes.make_config(ref, lane))
+    if spec.get("rp_box"):
+        rb = spec["rp_box"]
+        objs.append(fdtdx.UniformMaterialObject(
+            name="rpbox", material=fdtdx.Material(permittivity=rb["eps"]), placement_order=5,
+            partial_real_shape=tuple(float(n * d) for n in rb["size"]),
+            partial_real_position=tuple(float(o * d) for o in rb["offset"])))
     if variant == "realvol":
         vol2 = fdtdx.SimulationVolume(partial_real_shape=tuple(n * d for n in shape),
                                       material=scenes._mat(spec.get("background", {})), name="volume")
